@@ -22,6 +22,7 @@ import MW.Lemmas.RemoveInterleave2Ex
 import MW.Lemmas.RemoveInterleave3Ex
 import MW.Lemmas.RemoveInterleave4Ex
 import MW.Lemmas.RemoveInterleave5Ex
+import MW.Lemmas.RemoveInterleave6Ex
 import MW.Lemmas.RemoveJoinEx
 import MW.Lemmas.RemoveFlaggedEx
 import MW.Lemmas.RemoveSimEx
@@ -940,6 +941,22 @@ theorem remove_interleaved_above {limit : Nat} {c : Ctx} {w : Wid} {addrs : List
     (hrun : irun limit c w addrs x0 evs = some x) (hfin : x.fin = true) (hws : ∀ y ∈ ws', y ∈ c.wallets) :
     Inv { c with own := own', wallets := ws', node := x.node } x.s x.node.chain :=
   MW.Lemmas.RemoveInterleave.remove_interleaved_above hP hS hD hrun hfin hws
+
+/-- **remove_interleaved_above_nopend.**  `remove_interleaved_above` WITHOUT the pending-side hypothesis at the removal
+    steps (domain `DomF`): the pending-side invariant `PCI` at the start is carried through unconfirmed transactions
+    (delivered id not on the followed chain, an id already pending denotes the same transaction), removal steps,
+    extensions, and — once the first step has run — reorganisations above the floor (`pci_disconnect`: Rollback
+    re-creates the unmined credits of the transactions it puts back, which then are not on the shorter chain;
+    `pci_connect`); a notification's blocks must not reuse the id of a pending transaction or of a transaction of the
+    stored chain for a different transaction (`AllowedAt`).  Before the first removal step `DomF` admits extensions only
+    (reorganisations there: `remove_interleaved_above`, with `PendOK` at the steps). -/
+theorem remove_interleaved_above_nopend {limit : Nat} {c : Ctx} {w : Wid} {addrs : List Addr} {own' : Own} {G : Block}
+    {x0 x : ISt} {evs : List IEv} {ws' : List Wid}
+    (hP : Phase1 c w G x0) (hS : Static c w addrs own') (hPCI : PCI c addrs x0.s x0.node.chain)
+    (hD : DomF limit c w addrs G none x0 evs) (hrun : irun limit c w addrs x0 evs = some x) (hfin : x.fin = true)
+    (hws : ∀ y ∈ ws', y ∈ c.wallets) :
+    Inv { c with own := own', wallets := ws', node := x.node } x.s x.node.chain :=
+  MW.Lemmas.RemoveInterleave.remove_interleaved_above_nopend hP hS hPCI hD hrun hfin hws
 
 /-- the rollback half of the simulation, for ARBITRARY stores: disconnecting the tip block on a store `s` that is `g`
     minus records of script hashes no ready wallet owns, when the records under the tip block agree key by key and its
